@@ -313,7 +313,10 @@ func zzC10_selftest() {
 func zzC09_tcp_server_stop() {
 	nestedErr := error(nil)
 	nestedDone := false
-	onClose := [3]int{}
+	onClose := [4]int{}
+	// a third peer's connection may still be inside the server's new-connection callback when Stop is called
+	slowSetup := symChoose("connection-being-set-up-during-stop", 2) == 1
+	setupGate := make(chan struct{})
 	srv := New(zzOpt(func(c *Config) {
 		c.Ctx = context.Background()
 		c.MaxMessageSize = 64
@@ -334,6 +337,9 @@ func zzC09_tcp_server_stop() {
 			if p, ok := cc.NetConn().(*zzPipe); ok {
 				id := p.id
 				cc.AddOnClose(func() { onClose[id]++ })
+				if id == 3 {
+					<-setupGate // the application's callback takes its time
+				}
 			}
 		}
 		c.Handler = func(w *responsewriter.ResponseWriter[*client.Conn], r *pool.Message) {
@@ -359,6 +365,12 @@ func zzC09_tcp_server_stop() {
 	busy.in <- zzFrame(codes.GET, message.Token{0xA1}, nil)
 	symIdle()
 	symAssert(!nestedDone && len(busy.out) > 0, "the handler's nested request is on the stream and waits")
+	late := zzNewPipe(3)
+	if slowSetup {
+		l.conns <- net.Conn(late)
+		symIdle()
+		symCover("connection-in-setup")
+	}
 	stoppers := 0
 	if symChoose("concurrent-stop", 2) == 1 {
 		for i := 0; i < 2; i++ {
@@ -372,8 +384,15 @@ func zzC09_tcp_server_stop() {
 	} else {
 		srv.Stop()
 	}
+	if slowSetup {
+		symIdle()
+		close(setupGate) // the callback returns only after Stop has been called
+	}
 	symWaitUntil(func() bool { return served })
 	symIdle()
+	if slowSetup {
+		symAssert(late.closed && onClose[3] == 1, "a connection that was still being set up when Stop was called is closed as well, its on-close callback run once")
+	}
 	symAssert(nestedDone && nestedErr != nil, "the request in flight inside the handler returns an error when the server stops")
 	symAssert(busy.closed && idle.closed, "Stop closes every connection")
 	symAssert(onClose[1] == 1 && onClose[2] == 1, "every connection's on-close callback ran exactly once")
